@@ -38,6 +38,7 @@ ASSUME = [
     "the MATLAB script hard-codes RTMA.MESSAGE_HEADER = RTMA.typedefs.RTMA_MSG_HEADER, which exists only with the core definitions imported: without them that one line is skipped",
     "the C header omits the core definitions on purpose (C clients include RTMA.h, not in the repository): it is compiled only for closures that use no core type name",
     "identifiers come from a vocabulary legal in Python, C, JavaScript and MATLAB",
+    "a bare definition named like a name the compilers generate for another one (struct MT_X next to message X) may be refused by the compiler with DuplicateNameError (not a finding)",
     "a definition named like something the generated Python module uses itself may be refused by the compiler (counted only); field names with a leading underscore are not legal MATLAB identifiers and are C04's subject (near misses), not C15's",
     "array length 0 is not a documented construct and is not generated here (C04 covers it)",
     "most Python modules are imported in a fork of an interpreter that has done nothing but `import pyrtma` (same state as a fresh interpreter, without its start-up cost)",
@@ -105,6 +106,21 @@ def case_findings(program: G.Program, ex: L.Exam):
     out = []
     if ex.hung:
         return out  # counted as inconclusive by the caller
+    from checks.c04 import generated_collisions
+
+    coll = generated_collisions(ex.ref) if ex.ref is not None else generated_collisions(L.sig_from_program(program)) if isinstance(program, G.Program) else set()
+    if coll:
+        # a definition named like a name the compilers generate for another one (struct MT_X next to message X): the compiler may
+        # refuse it; if it accepts it the outputs must load
+        if ex.compile_error is not None and ex.compile_error.kind == "DuplicateNameError":
+            return out
+        inner = _case_findings(program, ex)
+        return [(k if not k.endswith("/general") and not k.endswith("/string-special") else k.rsplit("/", 1)[0] + "/generated-name-collision", w) for k, w in inner]
+    return _case_findings(program, ex)
+
+
+def _case_findings(program: G.Program, ex: L.Exam):
+    out = []
     if ex.compile_error is not None:
         e = ex.compile_error
         cls = classify_compile_error(program, e)
